@@ -600,12 +600,14 @@ def fold_extreme(I, ctx, seq, key, want_max, node, what):
         return None
     best = None          # (valid, elem, key)
     for g, e in items:
-        k = I.call(key, [e], {}, ctx, node) if key is not None else e
+        sub = ctx if concrete_bool(g) is True else ctx.fork(g)
+        k = I.call(key, [e], {}, sub, node) if key is not None else e
         if best is None:
             best = (g, e, k)
             continue
         bv, be, bk = best
-        better = I.order(ast.Gt() if want_max else ast.Lt(), k, bk, ctx, node)
+        sub2 = sub if concrete_bool(bv) is True else sub.fork(bv)
+        better = I.order(ast.Gt() if want_max else ast.Lt(), k, bk, sub2, node)
         take = And_(g, Or_(Not_(bv), better))
         best = (Or_(bv, g), merge_value(take, e, be), merge_value(take, k, bk))
     return best[1]
@@ -938,6 +940,11 @@ def _filter(I, ctx, fn, seq, node, negate=False):
         keep = I.truth(e if fn is None else I.call(fn, [e], {}, sub, node), sub)
         if negate:
             keep = Not_(keep)
+        if isinstance(e, Choice):
+            # alternatives excluded by the filter condition itself are dropped from the kept element
+            alts = [(ga, a) for ga, a in e.alts if concrete_bool(simp(And_(ga, keep))) is not False]
+            if alts and len(alts) < len(e.alts):
+                e = mk_choice(alts)
         out = seq_append_if(I, ctx, out, And_(g, keep), e)
     return out
 
@@ -1016,6 +1023,30 @@ def m_getitem(I, ctx, args, kwargs, node):
 @model(operator.gt)
 def m_gt(I, ctx, args, kwargs, node):
     return I.order(ast.Gt(), args[0], args[1], ctx, node)
+
+
+@model(operator.eq)
+def m_eq(I, ctx, args, kwargs, node):
+    return I.eq(args[0], args[1], ctx)
+
+
+@model(operator.contains)
+def m_contains(I, ctx, args, kwargs, node):
+    return contains(I, ctx, args[0], args[1], node)
+
+
+@model(list.copy)
+def m_list_copy(I, ctx, args, kwargs, node):
+    c, heap = content(I, ctx, args[0])
+    return ctx.alloc('list', wrap_seq(c, heap, ctx))
+
+
+@model(random.sample)
+def m_sample(I, ctx, args, kwargs, node):
+    k = kwargs.get('k', args[1] if len(args) > 1 else None)
+    if concrete_int(k) == 0:
+        return ctx.alloc('list', ())
+    raise PyvcUnsupported('random.sample of a non-empty selection')
 
 
 @model(operator.sub)
@@ -1215,7 +1246,7 @@ def call_method(I, ctx, recv, name, args, kwargs, node):
         raise PyvcUnsupported(f'mapping method {name}')
     if type(recv).__name__ == 'AbstractHandType':
         if name in ('from_game', 'from_game_or_none'):
-            return abstract_from_game(I, ctx, recv, args, node, name == 'from_game_or_none')
+            return abstract_from_game(I, ctx, recv, args, node, name == 'from_game_or_none', kwargs)
         raise PyvcUnsupported(f'abstract hand type method {name}')
     if isinstance(recv, str):
         if all(is_concrete(a) for a in args):
@@ -1251,11 +1282,14 @@ def struct_key(I, ctx, v):
     return repr(v)
 
 
-def abstract_from_game(I, ctx, ht, args, node, or_none):
+def abstract_from_game(I, ctx, ht, args, node, or_none, kwargs=None):
     """`hand_type.from_game(hole, board)` for an abstract hand type: the result depends only on the
     cards passed (memoised on their structure); it is a hand of some strength, or ValueError when no
     hand can be formed (C05 contract).  Strengths of one type are totally pre-ordered (C04 contract)."""
     from .shapes import AbstractHand
+    args = list(args)
+    if kwargs and 'board_cards' in kwargs:
+        args = args[:1] + [kwargs['board_cards']]
     seqs = [to_seq(I, ctx, a) for a in args]
     key = (ht.k, tuple(struct_key(I, ctx, q) for q in seqs))
     if key not in I.memo_uf:
